@@ -120,6 +120,26 @@ INVALID_SETTINGS = [
     {"LANGUAGE_DETECTION_CONFIDENCE_THRESHOLD": "0.5"}, {"CACHE_SIZE_LIMIT": "10"}, {"CACHE_SIZE_LIMIT": 1.5},
     {"DATE_ORDER": "DMY", "BOGUS": True},
 ]
+# (valid dict, wrongly typed dict whose values print / compare / hash like the valid ones): "an invalid setting is rejected
+# whatever the date string is" must also hold after the valid twin (or the invalid dict itself, or any other valid dict)
+# has been seen by the same process - two- and three-call histories carried inside the case
+TWINS = [
+    ({"STRICT_PARSING": True}, {"STRICT_PARSING": "True"}), ({"STRICT_PARSING": True}, {"STRICT_PARSING": 1}),
+    ({"RELATIVE_BASE": datetime(2020, 1, 1)}, {"RELATIVE_BASE": "2020-01-01 00:00:00"}),
+    ({"REQUIRE_PARTS": ["day"]}, {"REQUIRE_PARTS": "['day']"}), ({"REQUIRE_PARTS": ["day"]}, {"REQUIRE_PARTS": ("day",)}),
+    ({"CACHE_SIZE_LIMIT": 500}, {"CACHE_SIZE_LIMIT": "500"}), ({"CACHE_SIZE_LIMIT": 500}, {"CACHE_SIZE_LIMIT": 500.0}),
+    ({"NORMALIZE": False}, {"NORMALIZE": "False"}), ({"NORMALIZE": False}, {"NORMALIZE": 0}),
+    ({"LANGUAGE_DETECTION_CONFIDENCE_THRESHOLD": 0.5}, {"LANGUAGE_DETECTION_CONFIDENCE_THRESHOLD": "0.5"}),
+    ({"PARSERS": ["timestamp", "absolute-time"]}, {"PARSERS": "['timestamp', 'absolute-time']"}),
+    ({"PARSERS": ["timestamp", "absolute-time"]}, {"PARSERS": ("timestamp", "absolute-time")}),
+    ({"DEFAULT_LANGUAGES": ["en"]}, {"DEFAULT_LANGUAGES": "['en']"}), ({"SKIP_TOKENS": ["t"]}, {"SKIP_TOKENS": "['t']"}),
+    ({"RETURN_AS_TIMEZONE_AWARE": True}, {"RETURN_AS_TIMEZONE_AWARE": "True"}), ({"FUZZY": True}, {"FUZZY": "True"}),
+    ({"PREFER_LOCALE_DATE_ORDER": False}, {"PREFER_LOCALE_DATE_ORDER": "False"}),
+    ({"RETURN_TIME_AS_PERIOD": True}, {"RETURN_TIME_AS_PERIOD": "True"}),
+    ({"DATE_ORDER": "DMY", "STRICT_PARSING": True}, {"STRICT_PARSING": "True", "DATE_ORDER": "DMY"}),
+    ({"TIMEZONE": "UTC"}, {"TIMEZONE": b"UTC"}), ({"PREFER_DATES_FROM": "past"}, {"PREFER_DATES_FROM": b"past"}),
+]
+WARMUPS = ["twin", "twin-other-api", "itself", "twin-then-itself", "other-valid", "twin-search"]
 INVALID_STRINGS = ["", " ", "2014-01-01", "yesterday", "zzzz", "12", "1000000000", "in 2 days", "今天", "10:30", "(", "January",
                    "31/12/9999 23:59 +1400", "not a date at all", "2 hours ago EST", "\x00", "0", "Feb 30", "99999999999999999999", "T"]
 BAD_ARGS = [
@@ -177,6 +197,8 @@ def spaces(tier, seed):
                                      "zone": ["", "+1400", "EST"], "suffix": ["", "."], "cfg": [-1]},
                       note="no languages given (all 205 tried)"))
     sp.append(Product("invalid-settings", {"bad": range(len(INVALID_SETTINGS)), "s": INVALID_STRINGS, "api": ["parse", "ddp"]}))
+    sp.append(Product("invalid-after-valid", {"twin": range(len(TWINS)), "warm": WARMUPS, "s": INVALID_STRINGS[:10], "api": ["parse", "ddp"]},
+                      note="histories of 2-3 calls inside one case: a valid dict (or the invalid one itself) first, then the wrongly typed twin"))
     sp.append(Product("bad-arguments", {"arg": range(len(BAD_ARGS)), "s": INVALID_STRINGS[:8]}))
     sp.append(Product("non-str-input", {"v": range(len(NONSTR)), "api": ["parse", "ddp"]}))
     return sp
@@ -230,6 +252,34 @@ def run_case(sub, c):
             return "rejected", True, None
         return "bad", True, {"cls": {"form": "invalid-settings", "setting": sorted(st)[0], "kind": "accepted" if o[0] == "ok" else o[1]},
                              "expected": "SettingValidationError", "observed": o[1:] if o[0] == "exc" else "returned", "detail": {"settings": st, "string": c["s"]}}
+    if sub == "invalid-after-valid":
+        valid, st = TWINS[c["twin"]]
+
+        def call(which, d, text):
+            if which == "parse":
+                return api.outcome_of(dateparser.parse, text, languages=["en"], settings=dict(d))
+            if which == "search":
+                from dateparser.search import search_dates
+                return api.outcome_of(search_dates, "on " + text, languages=["en"], settings=dict(d))
+            return api.outcome_of(lambda: api.DateDataParser(languages=["en"], settings=dict(d)).get_date_data(text))
+        other = "ddp" if c["api"] == "parse" else "parse"
+        w = c["warm"]
+        if w in ("twin", "twin-then-itself"):
+            call(c["api"], valid, "1 March 2015")
+        if w == "twin-other-api":
+            call(other, valid, "1 March 2015")
+        if w == "twin-search":
+            call("search", valid, "1 March 2015")
+        if w in ("itself", "twin-then-itself"):
+            call(c["api"], st, "1 March 2015")
+        if w == "other-valid":
+            call(c["api"], {"PREFER_DAY_OF_MONTH": "first"}, "1 March 2015")
+        o = call(c["api"], st, c["s"])
+        if o[0] == "exc" and o[1] == "SettingValidationError":
+            return "rejected", True, None
+        return "bad", True, {"cls": {"form": "invalid-after-valid", "setting": sorted(st)[0], "warm": w, "kind": "accepted" if o[0] == "ok" else o[1]},
+                             "expected": "SettingValidationError", "observed": o[1:] if o[0] == "exc" else "returned",
+                             "detail": {"valid_first": repr(valid), "settings": repr(st), "string": c["s"]}}
     if sub == "bad-arguments":
         kw = BAD_ARGS[c["arg"]]
         o = api.outcome_of(dateparser.parse, c["s"], **kw)
@@ -284,6 +334,6 @@ def run_case(sub, c):
 
 
 def describe(sub, c):
-    if sub in ("invalid-settings", "bad-arguments", "non-str-input", "language-vocabulary"):
+    if sub in ("invalid-settings", "invalid-after-valid", "bad-arguments", "non-str-input", "language-vocabulary"):
         return None
     return {"string": build(c), "config": "autodetect" if c["cfg"] == -1 else CONFIGS[c["cfg"]][0]}
